@@ -6,7 +6,7 @@
 From Coq Require Import String.
 From Coq Require Import List NArith Bool.
 From HS Require Import Base.Prelude Model.Value Model.Escape Model.Version Model.Json Model.ZincDump Model.ZincParse.
-From HS Require Import Proofs.EscapeP Proofs.ZincParseP Proofs.ZincDumpP Proofs.ZincNumP Proofs.ZincDateP Proofs.ZincListP Proofs.ZincGridP Proofs.ZincDictP Proofs.ZincMetaP Proofs.ZincLeavesP Proofs.ZincDocP Proofs.ZincNestP Proofs.ZincCoordP Proofs.ZincXStrP.
+From HS Require Import Proofs.EscapeP Proofs.ZincParseP Proofs.ZincDumpP Proofs.ZincNumP Proofs.ZincDateP Proofs.ZincListP Proofs.ZincGridP Proofs.ZincDictP Proofs.ZincMetaP Proofs.ZincLeavesP Proofs.ZincDocP Proofs.ZincNestP Proofs.ZincCoordP Proofs.ZincXStrP Proofs.ZincDateTimeP.
 Import ListNotations.
 Open Scope N_scope.
 
@@ -205,6 +205,24 @@ Theorem C01_more_leaves :
                     leafd (VCoord (deg s1 i1 f1) (deg s2 i2 f2)) (coord_text (deg s1 i1 f1) (deg s2 i2 f2))) /\
   (forall en s e, xname_ok en -> escape_str s = Ok e -> leafd (VXStr en s) (en ++ 40 :: DQ :: e ++ [DQ; 41])).
 Proof. split; [exact leafd_ref_dis|]. split; [exact leafd_bin|]. split; [exact leafd_coord|exact leafd_xstr]. Qed.
+(* DATE-TIMES: what the writer emits for a date-time in a named zone (UTC, or a name starting with an upper-case letter
+   other than U and G) with a whole-minute offset below 24 h is read back through the WHOLE scalar alternation as the
+   raw ISO text and the zone name, exactly (the date rule, which matches the leading date, and the number rule, which
+   reads the year, lose to the longer match).  Turning the raw text into an instant is iso8601 + pytz: an oracle. *)
+Theorem C01_datetime : forall f g v3 y m d h mi s us off zn sg hh mm t rest,
+  iso_offset off = off_text sg hh mm -> dt_ok y m d h mi s us sg hh mm -> tzname_ok zn -> delim rest ->
+  zdump (S f) false (VDateTime y m d h mi s us off (ZName zn)) = Ok t ->
+  p_scalar (S g) v3 (t ++ rest) = Some (Ok (VDateTimeRaw (iso_datetime y m d h mi s us off) (Some zn)), rest).
+Proof. exact datetime_written_read. Qed.
+Example C01_datetime_nonvacuous :
+  iso_offset (-18000)%Z = off_text 45 5 0 /\ dt_ok 2020 6 1 12 30 0 250000 45 5 0 /\ tzname_ok (s_ "New_York") /\ tzname_ok (s_ "UTC") /\
+  iso_datetime 2020 6 1 12 30 0 250000 (-18000)%Z = s_ "2020-06-01T12:30:00.250000-05:00".
+Proof.
+  split; [reflexivity|]. split; [split; [reflexivity|split; [unfold time_ok; repeat split; (discriminate || reflexivity)|]]|].
+  - unfold off_ok. repeat split; try reflexivity. right; reflexivity.
+  - split; [right; repeat split; try discriminate; repeat constructor|]. split; [left; reflexivity|reflexivity].
+Qed.
+
 (* DOCUMENTS: a text of non-empty lines, each ended by one line feed, is one chunk for parser.parse (trailing-newline
    normalisation, splitting at blank lines, dropping blank chunks): what parse_grid makes of it is the document's one grid *)
 Theorem C01_document : forall s g, s <> [] -> (last s 0 =? 10) = false -> no_adj (s ++ [10]) = true ->
@@ -352,6 +370,7 @@ Proof. vm_compute. reflexivity. Qed.
 Print Assumptions C01_full_grid.
 Print Assumptions C01_value_relation.
 Print Assumptions C01_grid_with_metadata.
+Print Assumptions C01_datetime.
 Print Assumptions C01_document.
 Print Assumptions C01_more_leaves.
 Print Assumptions C01_grid_values.
